@@ -130,6 +130,10 @@ type Summary struct {
 	CheckFn      string          `json:"check_fn"`
 	Failures     []Failure       `json:"oracle_failures"`
 	Notes        []string        `json:"notes,omitempty"`
+	// families whose Coq-side check IS the property's oracle (e.g. the spec
+	// reader of SpecWire.v accepting a recorded exchange): a failing case there
+	// is a concrete failing input, not merely a model/implementation difference
+	OracleFamilies map[string]string `json:"oracle_families,omitempty"`
 }
 
 type Run struct {
@@ -245,6 +249,15 @@ func (r *Run) Fail(f Failure) {
 	if n < 5 {
 		r.Sum.Failures = append(r.Sum.Failures, f)
 	}
+}
+
+// OracleFamily declares that a failing Coq case of this family is a violation
+// of the property itself; what says what it means.
+func (r *Run) OracleFamily(family, what string) {
+	if r.Sum.OracleFamilies == nil {
+		r.Sum.OracleFamilies = map[string]string{}
+	}
+	r.Sum.OracleFamilies[family] = what
 }
 
 func (r *Run) Note(format string, a ...any) {
